@@ -9,6 +9,8 @@ def run(ctx):
                 "handshake calls and the first session writes that RTMP 1.0 5.2.1 allows) of RtmpSession within the cfg bounds; each finished "
                 "behaviour is replayed in the order of its schedule into two real endpoints (rtmp.Handshake, then rtmp.Protocol) that share ONE "
                 "byte stream per direction, under whole (as much as asked)/random/1-byte read segmentation and lock-step/deferred reads; "
+                "every message written is read at once (lock-step) or after all writes, the reader then has read exactly the "
+                "written sequence with nothing written behind its last message, and one more read finds no message; "
                 "a case is distinct if its write sequence or its schedule differs")
     ctx.exhaustive = True
     ctx.assumptions += ["payload bytes are a position-dependent pattern, not all byte strings",
@@ -16,35 +18,46 @@ def run(ctx):
                         "after the own handshake); one Handshake object per endpoint; the replay is single-threaded, a read is only called "
                         "when its bytes are in the transport",
                         "2^24-1 byte payloads only in the thorough tier; 1-byte segmentation only for behaviours up to 20 kB, random up to 400 kB",
+                        "message types: all that RTMP 1.0 defines (1-9, 15-20, 22); protocol-control bodies well-formed with position-pattern content "
+                        "(an Abort names no chunk stream with a pending message: the library's writer never interleaves)",
                         "messages are built with NewStreamMessage (chunk stream 5) or on chunk stream 2 for protocol control; chunk stream id 0/1 of NewMessage() is outside the property"]
+    def tlc(*a, **kw):
+        kw.setdefault("jopts", ["-Xmx3g"])      # shared machine: every TLC run has a heap cap
+        return ctx.tlc(*a, **kw)
+
     ctx.sany("rtmp", "RtmpSession")
     ctx.sany("rtmp", "RtmpChunk")
     # MC: the property on the specification
-    ctx.tlc("rtmp", "MC_RtmpSession", "MC_Session_agree.cfg", coverage=(t == "thorough"))
-    ctx.tlc("rtmp", "MC_RtmpSession", "MC_Session_bidir.cfg")
-    ctx.tlc("rtmp", "MC_RtmpSession", "MC_Session_header.cfg")
+    tlc("rtmp", "MC_RtmpSession", "MC_Session_agree.cfg", coverage=(t == "thorough"))
+    tlc("rtmp", "MC_RtmpSession", "MC_Session_bidir.cfg")
+    # (the header family - every message type x stream-id class x timestamp class as the only, hence last, message - is
+    # model-checked by its generation run Gen_Session_single.cfg below; likewise the ctl family by Gen_Session_ctl)
     # non-vacuity: a writer that does not follow its own Set Chunk Size desynchronises the session
-    ctx.tlc("rtmp", "MC_RtmpSession", "MC_Session_deviation.cfg", expect_violation="NoDesync", count_states=False)
+    tlc("rtmp", "MC_RtmpSession", "MC_Session_deviation.cfg", expect_violation="NoDesync", count_states=False)
     # handshake and session on one byte stream per direction: every interleaving of the two endpoints' six handshake calls and of the
     # first session messages that RTMP 1.0 5.2.1 allows; each handshake read takes exactly its 1/1536 bytes (HsExact)
-    ctx.tlc("rtmp", "MC_RtmpSession", "MC_Session_hs.cfg")
+    tlc("rtmp", "MC_RtmpSession", "MC_Session_hs.cfg")
     # non-vacuity: a handshake read through a buffer of its own takes what the peer wrote behind the packet
-    ctx.tlc("rtmp", "MC_RtmpSession", "MC_Session_hs_deviation.cfg", expect_violation="HsExact", count_states=False)
+    tlc("rtmp", "MC_RtmpSession", "MC_Session_hs_deviation.cfg", expect_violation="HsExact", count_states=False)
+    # non-vacuity: a reader that follows only the Set Chunk Size on message stream 0 while the writer follows every one
+    tlc("rtmp", "MC_RtmpSession", "MC_Session_scssid_deviation.cfg", expect_violation="NoDesync", count_states=False)
+    # non-vacuity: a writer that keeps an Acknowledgement in its buffer until the next message: the last one never arrives
+    tlc("rtmp", "MC_RtmpSession", "MC_Session_lazyflush_deviation.cfg", expect_violation="AllDelivered", count_states=False)
     # chunk-level refinement of the library's writer (fmt 0 + fmt 3, no interleaving) against the reference receiver
-    ctx.tlc("rtmp", "MC_RtmpChunk", "MC_Chunk_libwriter.cfg")
-    ctx.tlc("rtmp", "MC_RtmpChunk", "MC_Chunk_libwriter_deviation.cfg", expect_violation="Agree", count_states=False)
+    tlc("rtmp", "MC_RtmpChunk", "MC_Chunk_libwriter.cfg")
+    tlc("rtmp", "MC_RtmpChunk", "MC_Chunk_libwriter_deviation.cfg", expect_violation="Agree", count_states=False)
 
     cases = os.path.join(ctx.out, "cases.ndjson")
     gens = ["Gen_Session_agree.%s.cfg" % t, "Gen_Session_single.cfg", "Gen_Session_pair.cfg", "Gen_Session_bidir.%s.cfg" % t,
-            "Gen_Session_hs.%s.cfg" % t]
+            "Gen_Session_hs.%s.cfg" % t, "Gen_Session_ctl.%s.cfg" % t]
     if t == "thorough":
         gens.append("Gen_Session_big.thorough.cfg")
     for g in gens:
-        ctx.tlc("rtmp", "MC_RtmpSession", g, cases_to=cases, timeout=1200)
+        tlc("rtmp", "MC_RtmpSession", g, cases_to=cases, timeout=1200)
     if t == "thorough":
         ctx.exhaustive = False
-        ctx.tlc("rtmp", "MC_RtmpSession", "Gen_Session_sim.cfg", cases_to=cases, simulate=1500, depth=40, workers=1, timeout=900)
+        tlc("rtmp", "MC_RtmpSession", "Gen_Session_sim.cfg", cases_to=cases, simulate=1500, depth=40, workers=1, timeout=900)
         # random long behaviours in which the handshake calls of both endpoints and the first session writes interleave
-        ctx.tlc("rtmp", "MC_RtmpSession", "Gen_Session_hssim.cfg", cases_to=cases, simulate=600, depth=40, workers=1, timeout=900)
+        tlc("rtmp", "MC_RtmpSession", "Gen_Session_hssim.cfg", cases_to=cases, simulate=600, depth=40, workers=1, timeout=900)
     res = ctx.replay("session", cases, timeout=3000)
     ctx.judge("session", cases, res)
